@@ -400,8 +400,8 @@ func compare(e Exp, r Res, book *inoBook) (string, string) {
 			return "filetype", fmt.Sprintf("filetype %d, model: %d", r.Stat.Type, wantT)
 		}
 		if !n.dir {
-			if r.Stat.Size != uint64(len(n.data)) {
-				return "size", fmt.Sprintf("size %d, model: %d", r.Stat.Size, len(n.data))
+			if r.Stat.Size != uint64(n.size) {
+				return "size", fmt.Sprintf("size %d, model: %d", r.Stat.Size, n.size)
 			}
 			wantL := uint64(0)
 			if n.linked {
@@ -575,8 +575,7 @@ func hostTree(dir string) string {
 				out = append(out, r+"/")
 				visit(filepath.Join(p, e.Name()), r)
 			case e.Type().IsRegular():
-				b, _ := os.ReadFile(filepath.Join(p, e.Name()))
-				out = append(out, fmt.Sprintf("%s=%q", r, b))
+				out = append(out, fmt.Sprintf("%s=%s", r, hostContent(filepath.Join(p, e.Name()))))
 			default:
 				out = append(out, r+"?"+e.Type().String())
 			}
@@ -585,4 +584,56 @@ func hostTree(dir string) string {
 	visit(dir, "")
 	sort.Strings(out)
 	return strings.Join(out, " ")
+}
+
+// hostContent renders a host file the way inode.content renders the model's: small files are read whole,
+// larger ones are walked with SEEK_DATA/SEEK_HOLE so that a sparse file of 2^53 bytes costs a few pages.
+// (A file with more than 1 MiB of allocated data — nothing in the model does that — is reported as such.)
+func hostContent(path string) string {
+	f, err := os.Open(path)
+	if err != nil {
+		return "!" + err.Error()
+	}
+	defer f.Close()
+	st, err := f.Stat()
+	if err != nil {
+		return "!" + err.Error()
+	}
+	size := st.Size()
+	nz := map[int64]byte{}
+	const seekData, seekHole = 3, 4
+	var read int64
+	for pos := int64(0); pos < size; {
+		start, err := f.Seek(pos, seekData)
+		if err != nil {
+			if err.(*os.PathError).Err == syscall.ENXIO {
+				break // only a hole up to the end
+			}
+			return "!" + err.Error()
+		}
+		end, err := f.Seek(start, seekHole)
+		if err != nil {
+			return "!" + err.Error()
+		}
+		if end > size {
+			end = size
+		}
+		if read += end - start; read > 1<<20 {
+			return fmt.Sprintf("sparse(size=%d, more than 1 MiB of data)", size)
+		}
+		buf := make([]byte, end-start)
+		if _, err := f.ReadAt(buf, start); err != nil {
+			return "!" + err.Error()
+		}
+		for i, c := range buf {
+			if c != 0 {
+				nz[start+int64(i)] = c
+			}
+		}
+		if end <= pos {
+			return "!seek made no progress"
+		}
+		pos = end
+	}
+	return sparseString(size, nz)
 }
